@@ -3,7 +3,7 @@ Theorems: coq/Props/C04.v.  Streams: G-width through one-instruction / one-direc
 import vlib
 
 RULE = ("G-width: (type in u/s/i/#d) x width N x value v in [-2^N-4, 2^N+4] (exhaustive for N <= 8 quick, <= 13 thorough; "
-        "boundary neighbourhoods for N up to 256) x spelling (decimal, hex, binary, negated, expression) assembled by the "
+        "boundary neighbourhoods for N up to 256) x spelling (decimal, hex, binary, negated, expression, difference/sum of sized literals) assembled by the "
         "real crate as `t {x: TN} => x` / `#dN v`; non-trivial = distinct (type, N, v) with v within 4 of a range boundary")
 
 
@@ -37,10 +37,16 @@ def spell(v, how):
         return "-(%d)" % (-v), None
     if how == "expr":
         return "(%d + 7) - 7" % v, None
+    if how in ("subhex", "subhex1", "addhex"):
+        # arithmetic on SIZED operands: the result is unsized whatever the operands' literal widths are
+        if how == "addhex" and v >= 0:
+            return "0x%x + 0b%s" % (v // 2, bin(v - v // 2)[2:]), None
+        b = 1 if (how == "subhex1" and v + 1 >= 0) else a + 1
+        return "0x%02x - 0x%x" % (v + b, b), None
     raise ValueError(how)
 
 
-SPELLINGS = ["dec", "hex", "bin", "neg", "expr"]
+SPELLINGS = ["dec", "hex", "bin", "neg", "expr", "subhex", "subhex1", "addhex"]
 
 
 def boundaries(kind, n):
